@@ -79,6 +79,10 @@ type LedgerCfg struct {
 	HoldOps    []string `json:"holdops"`  // operators that are validators (hold placed by dogfood)
 	Scales     []string `json:"scales"`   // amount multipliers, one picked per behaviour by the seed
 	BlocksPer  int      `json:"blocksPer"` // real EndBlocks per model EndBlock
+	// block heights at which a behaviour may start (one picked per behaviour by the seed; default 1):
+	// store keys embed heights as unpadded hex, so behaviours are also run across digit-count
+	// boundaries (14 -> 0xe..0x18, 254 -> 0xfe..0x108, 4094 -> 0xffe..0x1008)
+	BaseHeights []int64 `json:"baseHeights"`
 	ModelPrec  int64    `json:"modelPrec"` // PREC of the generating model (slash factor unit)
 	NatFunds   string   `json:"natFunds"`  // model units of native balance per staker (scaled)
 	Path       string   `json:"path"`      // "" / "keeper": keeper entry points; "precompile": assets/delegation precompile Run as the gateway
@@ -140,7 +144,14 @@ func runLedger(args []string) int {
 	for bi, b := range behaviours {
 		scale, _ := new(big.Int).SetString(lc.Scales[rng.Intn(len(lc.Scales))], 10)
 		ctx, _ := w.Ctx.CacheContext()
-		ld := &ledgerDriver{w: w, lc: lc, scale: scale, ctx: ctx}
+		base := int64(1)
+		if len(lc.BaseHeights) > 0 {
+			base = lc.BaseHeights[rng.Intn(len(lc.BaseHeights))]
+		}
+		if base > 1 {
+			ctx = ctx.WithBlockHeight(base)
+		}
+		ld := &ledgerDriver{w: w, lc: lc, scale: scale, ctx: ctx, base: base}
 		ld.fundNative()
 		tw.Emit(map[string]interface{}{"ev": "reset", "b": bi, "scale": NB(scale), "cfg": ld.cfgJSON(), "st": ld.project()})
 		for _, e := range b {
@@ -159,6 +170,7 @@ type ledgerDriver struct {
 	w     *World
 	lc    LedgerCfg
 	scale *big.Int
+	base  int64 // real height of model height 1
 	ctx   sdk.Context
 }
 
@@ -386,7 +398,7 @@ func (d *ledgerDriver) call(e BEvent, args map[string]interface{}) error {
 		f.Quo(f, big.NewInt(d.lc.ModelPrec))
 		factor := sdkmath.LegacyNewDecFromBigIntWithPrec(f, 18)
 		// model heights map to real heights through blocksPer
-		rinfr := (infr-1)*int64(d.lc.BlocksPer) + 1
+		rinfr := (infr-1)*int64(d.lc.BlocksPer) + d.base
 		if rinfr > ctx.BlockHeight() {
 			rinfr = ctx.BlockHeight()
 		}
